@@ -131,6 +131,18 @@ def run(ck):
                     same_w = None
                     if cw is not None and ce is not None and len(cw) == len(ce) == 2:
                         same_w = all(x == y or T.ratfun_equal(x, y) for x, y in zip(cw, ce))
+                # the hooks' own argument order is the library's internal matter (the estimators that call them are judged by
+                # value, C08.R2 / C09.R3): when the numerator is the amplitude of the SECOND argument (the order (v, vp) instead
+                # of (vp, v)), the positional statements below do not apply as written
+                other_order = False
+                if cls != "DensityMatrix" and num.term is not None and refd.term is not None and refn.term is not None and num.term == refd.term and num.term != refn.term:
+                    other_order = True
+                elif cls == "DensityMatrix" and num.term is not None and refn.term is not None and num.term != refn.term and num.term == T.rename_syms(refn.term, {"v": "vp", "vp": "v"}):
+                    other_order = True
+                if other_order:
+                    ck.undecided("C08.R4", inst + ":hook argument order", wsite, "the importance-sampling hooks take (sample, flipped configuration) in the other order than this rule calls them with; "
+                                 "whether every estimator passes them that way is the estimator rules' matter")
+                    continue
                 ck.check(same_w, "C08.R4", inst + ":weight=numerator/denominator", wsite, "weight(vp, v) is not numerator(vp, v) / denominator(v)")
                 ck.check(num.term == refn.term, "C08.R4", inst + ":numerator", prog.method(cls, "importance_sampling_numerator").site(),
                          "numerator(vp, v) is not %s" % ("rho(vp, v) (argument order rho(s', s))" if cls == "DensityMatrix" else "psi(vp)"),
